@@ -10,7 +10,7 @@ if [ "${1:-}" = "--clean" ]; then
 fi
 mkdir -p $W
 if [ ! -d $W/repo ]; then git -C /repo worktree add --detach $W/repo HEAD >/dev/null 2>&1 || exit 3; fi
-git -C $W/repo checkout -q --detach $(git -C /repo rev-parse HEAD) && git -C $W/repo checkout -q -- . && git -C $W/repo clean -fdq
+git -C $W/repo checkout -q -f --detach $(git -C /repo rev-parse HEAD); git -C $W/repo clean -fdq
 if [ -n "${VMUT_BASEPATCH:-}" ]; then git -C $W/repo apply "$VMUT_BASEPATCH" || exit 3; fi
 if [ "$1" = "-e" ]; then
   sed -i "$2" $W/repo/$3 || exit 3; shift 3
